@@ -12,6 +12,8 @@ pub mod conc;
 pub mod ds;
 /// Event log, yield points and accessors used by the whole-collector harness.
 pub mod gc;
+/// Stage table and constants of the work-packet scheduler.
+pub mod sched;
 /// Hooks for heap layout (Map32, chunk-state mmapper, SFT / VM map lookups).
 pub mod layout;
 /// Hooks for side / header metadata.
